@@ -303,7 +303,7 @@ theorem tvNext_facts (p : TVD) (hac : p.ac ≤ 65535) (s : TSt) (hi : TInv p s) 
     ((tvNext p s).1 ≠ .done → (tvNext p s).2.current = s.current + 1 ∧ s.current < tvcCount p.countBits) ∧
     (tvNext p s).2.h.data.length ≤ s.h.data.length ∧ (tvNext p s).2.ser.length ≤ s.ser.length ∧
     (∀ t, (tvNext p s).1 = .yield t →
-      (∃ d', tvhRead d' p.ac = some t.hdr ∧ d'.length ≤ s.h.data.length) ∧
+      tvhRead s.h.data p.ac = some t.hdr ∧
       (tvNext p s).2.h.data.length + 4 ≤ s.h.data.length ∧
       t.varData.length + (tvNext p s).2.ser.length = s.ser.length) := by
   obtain ⟨hi1, hi2⟩ := hi
@@ -349,9 +349,64 @@ theorem tvNext_facts (p : TVD) (hac : p.ac ≤ 65535) (s : TSt) (hi : TInv p s) 
           intro t ht
           simp at ht
           subst ht
-          refine ⟨⟨s.h.data, hr, Nat.le_refl _⟩, hl, ?_⟩
+          refine ⟨hr, hl, ?_⟩
           simp only [List.length_take, List.length_drop]
           omega
+
+/-- the header iterator only ever drops a prefix of its data -/
+theorem tvhNext_sub (n ac : Nat) (s : HSt) : ∀ b ∈ (tvhNext n ac s).2.data, b ∈ s.data := by
+  intro b hb
+  unfold tvhNext at hb
+  split at hb
+  · exact hb
+  · split at hb
+    · exact hb
+    · simp only [] at hb
+      cases hr : tvhRead s.data ac with
+      | none =>
+        rw [hr] at hb
+        simp only [] at hb
+        split at hb
+        · exact hb
+        · exact List.mem_of_mem_drop hb
+      | some h =>
+        rw [hr] at hb
+        simp only [] at hb
+        cases hbl : h.byteLen ac with
+        | none => rw [hbl] at hb; exact hb
+        | some k =>
+          rw [hbl] at hb
+          simp only [] at hb
+          split at hb
+          · exact hb
+          · exact List.mem_of_mem_drop hb
+
+theorem tvNext_sub (p : TVD) (s : TSt) : ∀ b ∈ (tvNext p s).2.h.data, b ∈ s.h.data := by
+  intro b hb
+  have hsub := tvhNext_sub (tvcCount p.countBits) p.ac s.h
+  unfold tvNext at hb
+  simp only [] at hb
+  split at hb
+  · exact hb
+  · split at hb
+    · exact hb
+    · generalize tvhNext (tvcCount p.countBits) p.ac s.h = rh at hb hsub
+      obtain ⟨o, h'⟩ := rh
+      simp only [] at hsub
+      cases o with
+      | trap => exact hsub b hb
+      | done => exact hsub b hb
+      | cont => exact hsub b hb
+      | yield oh =>
+        cases oh with
+        | none => exact hsub b hb
+        | some hdr =>
+          simp only [] at hb
+          split at hb
+          · exact hsub b hb
+          · split at hb
+            · exact hsub b hb
+            · exact hsub b hb
 
 /-! ## `TupleVariation` accessors -/
 
@@ -714,5 +769,333 @@ theorem cvarVariationData_facts (d : List Nat) (ac : Nat) :
       refine ⟨rfl, rfl, rfl, by omega, ?_, ?_, rfl⟩
       · simp only []; rw [hdata] at hl; simp only [List.length_drop] at hl; omega
       · intro x hx; exact ⟨o, by rw [hsp x hx, hdata]⟩
+
+/-! ## `Gvar` -/
+
+theorem beAt_lt (d : List Nat) (hb : Bytes d) (pos n : Nat) : HandRead.beAt d pos n < 256 ^ n := by
+  unfold HandRead.beAt
+  have hb' : ∀ b ∈ (d.drop pos).take n, b < 256 :=
+    fun b h => hb b (List.mem_of_mem_drop (List.mem_of_mem_take h))
+  have hl : ((d.drop pos).take n).length ≤ n := List.length_take_le _ _
+  generalize (d.drop pos).take n = l at hb' hl
+  have key : ∀ (l : List Nat) (acc : Nat), (∀ b ∈ l, b < 256) →
+      l.foldl (fun acc b => acc * 256 + b) acc < (acc + 1) * 256 ^ l.length := by
+    intro l
+    induction l with
+    | nil => intro acc _; simp
+    | cons a r ih =>
+      intro acc h
+      have ha := h a (by simp)
+      have := ih (acc * 256 + a) (fun b hb => h b (by simp [hb]))
+      simp only [List.foldl_cons, List.length_cons]
+      calc _ < (acc * 256 + a + 1) * 256 ^ r.length := this
+        _ ≤ ((acc + 1) * 256) * 256 ^ r.length := Nat.mul_le_mul_right _ (by omega)
+        _ = (acc + 1) * 256 ^ (r.length + 1) := by rw [Nat.pow_succ, Nat.mul_assoc, Nat.mul_comm 256]
+  have := key l 0 hb'
+  unfold beValue
+  calc _ < (0 + 1) * 256 ^ l.length := this
+    _ ≤ 256 ^ n := by simp; exact Nat.pow_le_pow_right (by omega) hl
+
+theorem readAt_lt (d : List Nat) (hb : Bytes d) (off sz v : Nat) (h : readAt d off sz = some v) : v < 256 ^ sz := by
+  unfold readAt at h
+  split at h
+  · cases h
+  · split at h
+    · injection h with h; subst h; exact beAt_lt d hb off sz
+    · cases h
+
+/-- what a successful `Gvar::read` establishes -/
+theorem gvarRead_some {d : List Nat} {g : Gv} (hb : Bytes d) (hr : gvarRead d = some g) :
+    g.d = d ∧ 20 + g.offsLen ≤ d.length ∧
+    ∃ gc fl, readAt d 12 2 = some gc ∧ readAt d 14 2 = some fl ∧
+      g.offsLen = (gc + 1) * (if fl % 2 = 1 then 4 else 2) := by
+  unfold gvarRead at hr
+  cases hgc : readAt d 12 2 with
+  | none => simp [hgc] at hr
+  | some gc =>
+    cases hfl : readAt d 14 2 with
+    | none => simp [hgc, hfl] at hr
+    | some fl =>
+      simp only [hgc, hfl] at hr
+      have hgcl := readAt_lt d hb 12 2 gc hgc
+      have e1 : satAdd gc 1 = gc + 1 := satAdd_exact _ _ (by unfold MAXU; omega)
+      rw [e1] at hr
+      have e2 : checkedMul (gc + 1) (if fl % 2 = 1 then 4 else 2) = some ((gc + 1) * (if fl % 2 = 1 then 4 else 2)) := by
+        unfold checkedMul MAXU
+        rw [if_pos (by split <;> omega)]
+      rw [e2] at hr
+      simp only [] at hr
+      have e3 : satAdd 20 ((gc + 1) * (if fl % 2 = 1 then 4 else 2)) = 20 + (gc + 1) * (if fl % 2 = 1 then 4 else 2) :=
+        satAdd_exact _ _ (by unfold MAXU; split <;> omega)
+      rw [e3] at hr
+      by_cases hle : 20 + (gc + 1) * (if fl % 2 = 1 then 4 else 2) ≤ d.length
+      · rw [if_pos hle] at hr
+        injection hr with hr
+        subst hr
+        exact ⟨rfl, hle, gc, fl, rfl, rfl, rfl⟩
+      · rw [if_neg hle] at hr
+        cases hr
+
+/-- the unwrapping getters of a read `Gvar` -/
+theorem gvar_getters {d : List Nat} {g : Gv} (hb : Bytes d) (hr : gvarRead d = some g) :
+    (∃ v, g.axisCount = some v ∧ v ≤ 65535) ∧ (∃ v, g.sharedTupleCount = some v ∧ v ≤ 65535) ∧
+    (∃ v, g.sharedTuplesOffset = some v) ∧ (∃ v, g.glyphCount = some v) ∧ (∃ v, g.flags = some v ∧ v ≤ 1) ∧
+    (∃ v, g.dao = some v) := by
+  obtain ⟨hd, hl, gc, fl, _, hfl, _⟩ := gvarRead_some hb hr
+  have rd : ∀ off sz, off + sz ≤ 20 → ∃ v, readAt g.d off sz = some v ∧ v < 256 ^ sz := by
+    intro off sz h
+    rw [hd]
+    obtain ⟨v, hv⟩ := readAt_isSome d off sz (by omega) (by unfold MAXU; omega)
+    exact ⟨v, hv, readAt_lt d hb off sz v hv⟩
+  refine ⟨?_, ?_, ?_, ?_, ?_, ?_⟩
+  · obtain ⟨v, h1, h2⟩ := rd 4 2 (by omega); exact ⟨v, h1, by omega⟩
+  · obtain ⟨v, h1, h2⟩ := rd 6 2 (by omega); exact ⟨v, h1, by omega⟩
+  · obtain ⟨v, h1, h2⟩ := rd 8 4 (by omega); exact ⟨v, h1⟩
+  · obtain ⟨v, h1, h2⟩ := rd 12 2 (by omega); exact ⟨v, h1⟩
+  · unfold Gv.flags; rw [hd, hfl]; exact ⟨fl % 2, rfl, by omega⟩
+  · obtain ⟨v, h1, h2⟩ := rd 16 4 (by omega); exact ⟨v, h1⟩
+
+/-- `shared_tuples()?.tuples()` never panics; the array is a slice of the table -/
+theorem sharedTuples_facts {d : List Nat} {g : Gv} (hb : Bytes d) (hr : gvarRead d = some g) :
+    g.sharedTuples ≠ .trap ∧
+    (∀ e, g.sharedTuples = .err e → e = .oob ∨ e = .nullOffset) ∧
+    ∀ sd, g.sharedTuples = .ok sd → ∃ off n, sd = (d.drop off).take n ∧ off + n ≤ d.length := by
+  obtain ⟨⟨ac, hac, _⟩, ⟨cnt, hcnt, _⟩, ⟨off, hoff⟩, _⟩ := gvar_getters hb hr
+  obtain ⟨hd, _⟩ := gvarRead_some hb hr
+  unfold Gv.sharedTuples
+  rw [hcnt, hac, hoff]
+  simp only []
+  have hres := resolveData_facts g.d off
+  cases hrd : resolveData g.d off with
+  | trap => exact absurd hrd hres.1
+  | err e => exact ⟨by simp, fun e' he' => by injection he' with he'; subst he'; exact resolveData_err _ _ _ hrd, by simp⟩
+  | ok data =>
+    simp only []
+    obtain ⟨hdata, hol, _⟩ := hres.2 data hrd
+    cases checkedMul ac 2 with
+    | none => exact ⟨by simp, fun e he => by injection he with he; exact Or.inl he.symm, by simp⟩
+    | some sz =>
+      simp only []
+      cases hcm : checkedMul cnt sz with
+      | none => exact ⟨by simp, fun e he => by injection he with he; exact Or.inl he.symm, by simp⟩
+      | some tbl =>
+        simp only []
+        have htm : tbl ≤ MAXU := by
+          unfold checkedMul at hcm
+          split at hcm
+          · injection hcm with hcm; omega
+          · cases hcm
+        by_cases hle : satAdd 0 tbl ≤ data.length
+        · rw [if_pos hle]
+          have htl : tbl ≤ data.length := by
+            rw [satAdd_exact 0 tbl (by omega)] at hle; omega
+          have : sliceExcl data 0 tbl = some (tbl - 0) := by
+            unfold sliceExcl getRange; rw [if_pos ⟨by omega, htl⟩]
+          rw [this]
+          simp only []
+          refine ⟨by simp, by simp, ?_⟩
+          intro sd hsd
+          injection hsd with hsd
+          refine ⟨off, tbl, by rw [← hsd, hdata, hd], ?_⟩
+          rw [hdata, hd] at htl
+          simp only [List.length_drop] at htl
+          rw [hd] at hol
+          omega
+        · rw [if_neg hle]
+          exact ⟨by simp, fun e he => by injection he with he; exact Or.inl he.symm, by simp⟩
+
+/-- `data_for_gid` never panics and hands out a non-empty slice inside the table -/
+theorem dataForGid_facts {d : List Nat} {g : Gv} (hb : Bytes d) (hr : gvarRead d = some g) (gid : Nat) :
+    g.dataForGid gid ≠ .trap ∧ (∀ e, g.dataForGid gid = .err e → e = .oob) ∧
+    ∀ bytes, g.dataForGid gid = .ok (some bytes) →
+      ∃ s e, s < e ∧ e ≤ d.length ∧ bytes = (d.drop s).take (e - s) ∧ bytes.length = e - s := by
+  obtain ⟨_, _, _, _, ⟨fl, hfl, _⟩, ⟨dao, hdao⟩⟩ := gvar_getters hb hr
+  obtain ⟨hd, _⟩ := gvarRead_some hb hr
+  unfold Gv.dataForGid
+  rw [hfl, hdao]
+  simp only []
+  cases hg : GvarLayout.dataForGid g.d (decide (fl % 2 = 1)) dao (g.offsets (decide (fl % 2 = 1))) gid with
+  | none => exact ⟨by simp, fun e he => by injection he with he; exact he.symm, by simp⟩
+  | some r =>
+    simp only []
+    refine ⟨by simp, by simp, ?_⟩
+    intro bytes hbt
+    injection hbt with hbt
+    subst hbt
+    unfold GvarLayout.dataForGid at hg
+    split at hg
+    · cases hg
+    · rename_i s e _
+      split at hg
+      · cases hg
+      · split at hg
+        · injection hg with hg
+          injection hg with hg
+          rw [hd] at hg
+          rename_i h1 h2
+          rw [hd] at h2
+          refine ⟨s, e, by omega, h2, hg.symm, ?_⟩
+          rw [← hg]
+          simp only [List.length_take, List.length_drop]
+          omega
+        · cases hg
+
+/-- `glyph_variation_data(gid)` never panics; the variation data it returns was built from a slice of
+the table with the table's axis count -/
+theorem glyphVariationData_facts {d : List Nat} {g : Gv} (hb : Bytes d) (hr : gvarRead d = some g) (gid : Nat) :
+    g.glyphVariationData gid ≠ .trap ∧
+    (∀ e, g.glyphVariationData gid = .err e → e = .oob ∨ e = .nullOffset) ∧
+    ∀ p, g.glyphVariationData gid = .ok (some p) →
+      p.ac ≤ 65535 ∧ g.axisCount = some p.ac ∧
+      ∃ bytes shared, gvdNew bytes p.ac shared = .ok p ∧ bytes.length ≤ d.length ∧ Bytes bytes ∧ Bytes shared := by
+  obtain ⟨⟨ac, hac, hacl⟩, _⟩ := gvar_getters hb hr
+  obtain ⟨hs1, hs2, hs3⟩ := sharedTuples_facts hb hr
+  obtain ⟨hd1, hd2, hd3⟩ := dataForGid_facts hb hr gid
+  unfold Gv.glyphVariationData
+  cases hst : g.sharedTuples with
+  | trap => exact absurd hst hs1
+  | err e => exact ⟨by simp, fun e' he' => by injection he' with he'; subst he'; exact hs2 e hst, by simp⟩
+  | ok shared =>
+    simp only []
+    rw [hac]
+    simp only []
+    cases hdg : g.dataForGid gid with
+    | trap => exact absurd hdg hd1
+    | err e => exact ⟨by simp, fun e' he' => by injection he' with he'; subst he'; exact Or.inl (hd2 e hdg), by simp⟩
+    | ok ob =>
+      cases ob with
+      | none => exact ⟨by simp, by simp, by simp⟩
+      | some bytes =>
+        simp only []
+        obtain ⟨g1, g2, g3⟩ := gvdNew_facts bytes ac shared
+        cases hgn : gvdNew bytes ac shared with
+        | trap => exact absurd hgn g1
+        | err e => exact ⟨by simp, fun e' he' => by injection he' with he'; subst he'; exact g2 e hgn, by simp⟩
+        | ok p =>
+          simp only []
+          refine ⟨by simp, by simp, ?_⟩
+          intro p' hp'
+          injection hp' with hp'
+          injection hp' with hp'
+          subst hp'
+          obtain ⟨hpa, _⟩ := g3 p hgn
+          obtain ⟨s, e, _, hel, hbe, hbl⟩ := hd3 bytes hdg
+          obtain ⟨off, n, hsd, _⟩ := hs3 shared hst
+          refine ⟨by omega, by rw [hpa], bytes, shared, by rw [hpa]; exact hgn, by omega, ?_, ?_⟩
+          · intro b hbm; rw [hbe] at hbm; exact hb b (List.mem_of_mem_drop (List.mem_of_mem_take hbm))
+          · intro b hbm; rw [hsd] at hbm; exact hb b (List.mem_of_mem_drop (List.mem_of_mem_take hbm))
+
+/-! ## `Cvar::deltas` -/
+
+theorem applyCvt_length (buf : List Int) (ix : Nat) (v sc : Int) (out : List Int)
+    (h : applyCvt buf ix v sc = some out) : out.length = buf.length := by
+  unfold applyCvt at h
+  split at h
+  · injection h with h; rw [← h]
+  · split at h
+    · cases h
+    · split at h
+      · cases h
+      · injection h with h; rw [← h]; simp
+
+theorem applyCvtAll_length (l : List (Nat × Int × Int)) (sc : Int) :
+    ∀ (buf out : List Int), applyCvtAll l sc buf = some out → out.length = buf.length := by
+  induction l with
+  | nil => intro buf out h; simp [applyCvtAll] at h; rw [← h]
+  | cons a r ih =>
+    intro buf out h
+    obtain ⟨pos, v, w⟩ := a
+    unfold applyCvtAll at h
+    cases hc : applyCvt buf pos v sc with
+    | none => simp [hc] at h
+    | some b' =>
+      simp only [hc] at h
+      rw [ih b' out h, applyCvt_length buf pos v sc b' hc]
+
+theorem cvarDeltasLoop_length (p : TVD) (l : List (TV × Int)) :
+    ∀ (buf out : List Int), cvarDeltasLoop p l buf = .ok out → out.length = buf.length := by
+  induction l with
+  | nil => intro buf out h; simp [cvarDeltasLoop] at h; rw [← h]
+  | cons a r ih =>
+    intro buf out h
+    obtain ⟨t, sc⟩ := a
+    unfold cvarDeltasLoop at h
+    cases hd : t.deltasTrace p false with
+    | none => simp [hd] at h
+    | some evs =>
+      simp only [hd] at h
+      split at h
+      · cases h
+      · cases ha : applyCvtAll (items evs) sc buf with
+        | none => simp [ha] at h
+        | some b' =>
+          simp only [ha] at h
+          rw [ih b' out h, applyCvtAll_length _ sc buf b' ha]
+
+/-! ## `active_tuples_at` -/
+
+theorem activeFold_ok (p : TVD) (coords : List Int) (ts : List TV)
+    (h : ∀ t ∈ ts, ∃ r, t.computeScalar p coords = .ok r) :
+    ∃ l, ts.foldr (fun t acc =>
+        match t.computeScalar p coords, acc with
+        | .trap, _ => R.trap
+        | _, .trap => .trap
+        | _, .err e => .err e
+        | .err e, _ => .err e
+        | .ok (some v), .ok l => .ok ((t, v) :: l)
+        | .ok none, .ok l => .ok l) (.ok []) = .ok l ∧
+      l.length ≤ ts.length ∧ ∀ x ∈ l, x.1 ∈ ts ∧ x.1.computeScalar p coords = .ok (some x.2) := by
+  induction ts with
+  | nil => exact ⟨[], rfl, by simp, by simp⟩
+  | cons t r ih =>
+    obtain ⟨l, hl, hlen, hall⟩ := ih (fun t' ht' => h t' (by simp [ht']))
+    obtain ⟨res, hres⟩ := h t (by simp)
+    simp only [List.foldr_cons]
+    rw [hl, hres]
+    cases res with
+    | none =>
+      refine ⟨l, rfl, by simp; omega, ?_⟩
+      intro x hx
+      obtain ⟨h1, h2⟩ := hall x hx
+      exact ⟨by simp [h1], h2⟩
+    | some v =>
+      refine ⟨(t, v) :: l, rfl, by simp; omega, ?_⟩
+      intro x hx
+      simp only [List.mem_cons] at hx
+      rcases hx with rfl | hx
+      · exact ⟨by simp, hres⟩
+      · obtain ⟨h1, h2⟩ := hall x hx
+        exact ⟨by simp [h1], h2⟩
+
+def I32 (x : Int) : Prop := -2147483648 ≤ x ∧ x ≤ 2147483647
+
+theorem fxFromI32_some (v : Int) : ∃ f, Checked.fxFromI32 v = some f ∧ I32 f := by
+  refine ⟨Checked.i32.wrap (v * 2 ^ (16 : Int).toNat), by simp [Checked.fxFromI32, Checked.IntTy.shl, Checked.i32], ?_⟩
+  simp only [Checked.IntTy.wrap, Checked.i32, I32]
+  omega
+
+theorem applyCvtAll_some (hm : ∀ a b, I32 a → I32 b → (Checked.fxMul a b).isSome) (sc : Int) (hsc : I32 sc)
+    (l : List (Nat × Int × Int)) : ∀ buf : List Int, ∃ out, applyCvtAll l sc buf = some out := by
+  induction l with
+  | nil => intro buf; exact ⟨buf, rfl⟩
+  | cons a r ih =>
+    intro buf
+    obtain ⟨pos, v, w⟩ := a
+    unfold applyCvtAll
+    have : ∃ b', applyCvt buf pos v sc = some b' := by
+      unfold applyCvt
+      cases buf[pos]? with
+      | none => exact ⟨_, rfl⟩
+      | some cur =>
+        simp only []
+        obtain ⟨f, hf, hfi⟩ := fxFromI32_some v
+        rw [hf]
+        simp only []
+        obtain ⟨pr, hpr⟩ := Option.isSome_iff_exists.mp (hm f sc hfi hsc)
+        rw [hpr]
+        exact ⟨_, rfl⟩
+    obtain ⟨b', hb'⟩ := this
+    rw [hb']
+    exact ih b'
 
 end FontVerif.C01HandVar
